@@ -95,6 +95,13 @@ def main():
                 print("WARNING: /repo not clean after revert:\n" + st)
         else:
             sh("git -C %s worktree remove --force %s" % (REPO, target))
+    # leave lean/SelfiesVerif/Generated as regenerated from /repo itself (every check regenerates anyway; this only
+    # keeps the working tree free of files derived from the scratch tree)
+    env0 = dict(os.environ)
+    env0["SELFIES_REPO"] = REPO
+    env0["PYTHONPATH"] = REPO
+    subprocess.run(["/venv/bin/python", os.path.join(HERE, "gen_tables.py")], stdout=subprocess.DEVNULL,
+                   stderr=subprocess.DEVNULL, env=env0)
     out_path = os.path.join(d, "result.json")
     old = {}
     if os.path.exists(out_path):
